@@ -1094,6 +1094,20 @@ func escapes(v ssa.Value, seen map[ssa.Value]bool) bool {
 			if u.Call.Value == v {
 				return true
 			}
+		case *ssa.Defer:
+			// deferred call of a statically known function: as for a call
+			callee := u.Call.StaticCallee()
+			if callee == nil || callee.Blocks == nil || u.Call.IsInvoke() || u.Call.Value == v {
+				return true
+			}
+			for i, a := range u.Call.Args {
+				if a != v {
+					continue
+				}
+				if i >= len(callee.Params) || escapes(callee.Params[i], seen) {
+					return true
+				}
+			}
 		case *ssa.MakeClosure:
 			// captured: fine if the closure is only ever called/deferred directly and the
 			// captured variable does not escape inside it
